@@ -15,6 +15,11 @@ CHECKS = {
   text="Theorems norm_sound (the AC normal form has the same value under every assignment, for expressions of any size), sig_eq_implies_val_eq, norm_acEquiv/sig_acEquiv (any re-ordering/re-association of + and * operands at any depth gives the same signature), swap_noncomm_changes and leaf_change_changes, all for every operator list satisfying commOpsOK; the list is re-extracted from the real normalize_expression_sig_v1 on every run and commOpsOK is re-decided. The Lean sig string is compared byte for byte with the real signature and Lean eval with Python's on generated expressions.",
   note="Trusted: Lean kernel; injectivity of ast.dump (explicit hypothesis hinj); the operator probe in props/c12.py; fragment restricted to fixed-arity abs/min/max and single comparisons; exact integers (results leaving the integers are `none`).",
   design="§7 C12"),
+ "C13": dict(
+  technique="Lean 4 proof (commuting-step fold over permutations up to state equivalence; canonical sorted sets; explicit characterisation of the folded state on runtime-trace prefixes) + decidable side conditions on decision tables read off the real aggregator + differential run on real traces",
+  text="Theorems run_verdict_perm_invariant / launch_verdict_perm_invariant (verdicts, including launch roll-up counts, depend only on the multiset of records, for record lists of any length, under the one-SER-per-node hypothesis the runtime guarantees), interleaving_invariant, finalize_idempotent, and prefix_started_verdict / full_trace_verdict / take_fullTrace (every prefix of a runtime trace of any length gets the documented verdict: partial with exactly the end edge missing and missing nodes = canonical nodes without a SER, complete with both edges, no orphans). The status rules are tables regenerated from the real finalize_run/finalize_launch on every run and re-checked against the documented rules by `decide`; the model is compared with the real aggregator on prefixes, permutations, subsets and k-way interleavings of real traces.",
+  note="Trusted: Lean kernel; the table extractor and record canonicaliser in props/c13.py (timestamps as ranks); hypothesis Compat (one pipeline_start per run, one status per (run,node)); the per-run projection of the dictionary of runs (validated by the differential run on multi-run record sets).",
+  design="§7 C13"),
 }
 
 NOT_APPLICABLE = {}
